@@ -33,6 +33,7 @@ fn setup(ctx: &mut Ctx) {
     ctx.floor("gnu:no-stop-bit-chain-walked", 200);
     ctx.floor("symver:quadratic-shape", 20);
     ctx.floor("symver:next=0", 20);
+    ctx.floor("symver:next-near-2^32", 20);
     ctx.floor("symver:absurd-count", 100);
     ctx.floor("notes:huge-sizes", 100);
     ctx.floor("walker-runs", 500);
@@ -40,10 +41,10 @@ fn setup(ctx: &mut Ctx) {
 
 fn strata(t: Tier) -> Vec<Stratum> {
     vec![
-        st("adversarial-hash", scale(t, 6_000, 60_000, 40)),
-        st("adversarial-symver", scale(t, 3_000, 30_000, 30)),
-        st("adversarial-notes", scale(t, 3_000, 30_000, 20)),
-        st("walker-corpus", scale(t, 10_000, 100_000, 20)),
+        st("adversarial-hash", scale(t, 6_000, 60_000, 64)),
+        st("adversarial-symver", scale(t, 3_000, 30_000, 128)),
+        st("adversarial-notes", scale(t, 3_000, 30_000, 32)),
+        st("walker-corpus", scale(t, 10_000, 100_000, 8)),
         st("worst-case-64KiB", scale(t, 16, 160, 0)),
     ]
 }
@@ -272,11 +273,12 @@ fn run(ctx: &mut Ctx, si: usize, case: u64) {
         }
         1 => {
             let total = if small { 64 + ctx.rng.usize_below(64) } else { 64 + ctx.rng.usize_below(4000) };
-            let var = ctx.rng.below(6);
+            let var = ctx.rng.below(7);
             let v = adversarial::ver_overlap(&mut ctx.rng, enc, total, var);
             match var {
                 0 | 1 => ctx.count("symver:quadratic-shape"),
                 2 => ctx.count("symver:next=0"),
+                5 => ctx.count("symver:next-near-2^32"),
                 _ => {}
             }
             if v.need_count >= 0xffff {
